@@ -35,3 +35,73 @@ def declare(S: Spec):
                              "all(all(p.id in self.returned for p in n.parents) for n in self.queue)",
                              "all(iff(x in self.returned, old(x in vals_set(self.returned)) or x is curr.id) for x in every('UUID'))",
                              "all(n in old(seq(self.queue)) or n in take(curr.children, k) for n in self.queue)"])})
+
+
+def declare2(S: Spec):
+    """DAG construction (C15, C14): add_node and, through it, Pipeline.new_operator"""
+    MP = "eudoxia.workload.pipeline"
+    HAS = "(parents is not None and len(parents) > 0)"
+    S.fn(f"{MD}:DAG.add_node", owners=["C15"],
+         params={"node": Ref("Node"), "parents": List(Ref("Node"))},
+         requires=["node is not None and node.children is not None and node.parents is not None and node.id is not None",
+                   "self.node_ids is not None and self.node_lookup is not None and self.roots is not None",
+                   "implies(parents is not None, nodup(parents) and all(p is not None and p is not node and p.children is not None and p.id is not None for p in parents))",
+                   "implies(parents is not None, parents is not self.roots and parents is not node.parents and all(parents is not p.children for p in parents))"],
+         ensures=[("id-registered-last", "seq(self.node_ids) == app(old(seq(self.node_ids)), node.id)"),
+                  ("lookup-gains-the-node", "self.node_lookup[node.id] is node and all(k in self.node_lookup and implies(k is not node.id, self.node_lookup[k] is old(self.node_lookup[k]))"
+                                            " for k in old(keys(self.node_lookup)))"),
+                  ("a-node-without-parents-is-a-root", f"implies(not {HAS}, seq(self.roots) == app(old(seq(self.roots)), node) and seq(node.parents) == old(seq(node.parents)))"),
+                  ("edges-to-the-parents", f"implies({HAS}, seq(self.roots) == old(seq(self.roots)) and seq(node.parents) == cat(old(seq(node.parents)), seq(parents))"
+                                           " and all(seq(p.children) == app(old(seq(p.children)), node) for p in parents))"),
+                  ("was-new", "old(node.id not in self.node_ids)")],
+         raises={"AssertionError": ["old(node.id in self.node_ids) or (parents is not None and any(p.id not in old(seq(self.node_ids)) for p in parents))"]},
+         modifies=["contents(self.node_ids)", "contents(self.node_lookup)", "contents(self.roots)", "contents(node.parents)",
+                   "(contents(p.children) for p in every('Node') if parents is not None and p in parents)"],
+         loops={0: dict(idx="k", inv=["k <= len(parents)", "seq(node.parents) == cat(at_entry(seq(node.parents)), take(seq(parents), k))",
+                                      "all(seq(parents[j].children) == app(at_entry(seq(parents[j].children)), node) for j in range(0, k))",
+                                      "all(seq(parents[j].children) == at_entry(seq(parents[j].children)) for j in range(k, len(parents)))",
+                                      "seq(self.node_ids) == at_entry(seq(self.node_ids)) and seq(self.roots) == at_entry(seq(self.roots))",
+                                      "keys(self.node_lookup) == at_entry(keys(self.node_lookup))",
+                                      "all(self.node_lookup[kk] is at_entry(self.node_lookup[kk]) for kk in self.node_lookup)"],
+                        unfold=["seq(parents)"])},
+         note="an exception (duplicate id, unknown parent) may leave edges already added behind; it is raised only for a duplicate id or an unknown parent")
+    S.fn(f"{MP}:Pipeline.new_operator", owners=["C15"], params={"parents": List(Ref("Operator"))}, returns=Ref("Operator"),
+         requires=["self.values is not None and self.values.node_ids is not None and self.values.node_lookup is not None and self.values.roots is not None",
+                   "implies(parents is not None, nodup(parents) and all(p is not None and p.children is not None and p.id is not None for p in parents))",
+                   "implies(parents is not None, parents is not self.values.roots and all(parents is not p.children for p in parents))"],
+         ensures=[("a-fresh-operator-of-this-pipeline", "result is not None and fresh(result) and result.pipeline is self and result.values is not None"
+                                                        " and fresh(result.values) and len(result.values) == 0 and fresh(result.children) and fresh(result.parents) and fresh(result.id)"),
+                  ("registered-last", "seq(self.values.node_ids) == app(old(seq(self.values.node_ids)), result.id)"),
+                  ("looked-up-by-its-id", "self.values.node_lookup[result.id] is result and all(k in self.values.node_lookup and"
+                                          " self.values.node_lookup[k] is old(self.values.node_lookup[k]) for k in old(keys(self.values.node_lookup)))"),
+                  ("its-parents-are-the-given-ones", f"implies({HAS}, seq(result.parents) == seq(parents)) and implies(not {HAS}, len(result.parents) == 0)")],
+         raises={"AssertionError": ["parents is not None and any(p.id not in old(seq(self.values.node_ids)) for p in parents)"]},
+         modifies=["contents(self.values.node_ids)", "contents(self.values.node_lookup)", "contents(self.values.roots)",
+                   "(contents(p.children) for p in every('Node') if parents is not None and p in parents)"],
+         allocates=True)
+
+
+def declare3(S: Spec):
+    """C01 clause c, construction side: the only writer of the node graph keeps it well formed, so the iterator's
+    precondition GNodeWF() is an invariant of every DAG built through add_node (writers are scan-checked)."""
+    # a node that is in no edge yet; under GNodeWF() empty parent/child lists imply that no other node lists it either
+    S.pred("Unlinked", [("n", Ref("Node"))],
+           "n is not None and n.children is not None and n.parents is not None and len(n.children) == 0 and len(n.parents) == 0")
+    S.fn(f"{MD}:DAG.add_node#wf", owners=["C01"],
+         params={"node": Ref("Node"), "parents": List(Ref("Node"))},
+         requires=["node is not None and node.id is not None and Unlinked(node)", "GNodeWF()",
+                   "self.node_ids is not None and self.node_lookup is not None and self.roots is not None",
+                   "implies(parents is not None, nodup(parents) and all(p is not None and p is not node and p.children is not None and p.parents is not None and p.id is not None for p in parents))",
+                   "implies(parents is not None, parents is not self.roots and parents is not node.parents and all(parents is not p.children for p in parents))"],
+         ensures=[("the-node-graph-stays-well-formed", "GNodeWF()")],
+         raises={"AssertionError": []},
+         modifies=["contents(self.node_ids)", "contents(self.node_lookup)", "contents(self.roots)", "contents(node.parents)",
+                   "(contents(p.children) for p in every('Node') if parents is not None and p in parents)"],
+         loops={0: dict(idx="k", inv=["k <= len(parents)", "seq(node.parents) == take(seq(parents), k)",
+                                      "all(seq(parents[j].children) == app(at_entry(seq(parents[j].children)), node) for j in range(0, k))",
+                                      "all(seq(parents[j].children) == at_entry(seq(parents[j].children)) for j in range(k, len(parents)))",
+                                      "all(implies(n is not None and n is not node and not (n in take(seq(parents), k)), seq(n.children) == at_entry(seq(n.children))) for n in every('Node'))",
+                                      "all(implies(n is not None and n is not node, seq(n.parents) == at_entry(seq(n.parents))) for n in every('Node'))"],
+                        unfold=["seq(parents)"])},
+         note="variant of add_node's contract carrying the graph invariant")
+
